@@ -30,8 +30,8 @@ CASE_TIMEOUT = 300
 def strategy(tier):
     @st.composite
     def case(draw):
-        mode = draw(st.sampled_from(["box", "box", "truth"]))
-        kinds = ["Square", "Normal"] if mode == "truth" else lossgen.KINDS
+        mode = draw(st.sampled_from(["box", "box", "truth", "zero-bound"]))
+        kinds = ["Square", "Normal"] if mode in ("truth", "zero-bound") else lossgen.KINDS
         c = draw(lossgen.loss_case(kinds=kinds, weights=(mode != "truth"), target_param="subset-ordered", max_states=3,
                                    n_times=(4, 8), allow_time=False))
         c["mode"] = mode
@@ -59,6 +59,22 @@ def strategy(tier):
             lo.append(a)
             hi.append(b)
             start.append(min(max(s0, a), b))
+        if mode == "zero-bound":
+            # one side of the box is exactly zero (the most common bound there is) and the optimum lies beyond it, so the
+            # bound has to be active: data are generated with parameter k on the other side of zero
+            k = draw(st.integers(0, len(tp) - 1))
+            idx = m["params"].index(tp[k])
+            v = abs(c["setup"]["theta"][idx])
+            zero = draw(st.sampled_from([0, 0.0]))
+            if draw(st.booleans()):          # box [-v/2, 0], generating value +v
+                lo[k], hi[k] = S.sig(-0.5 * v, 4), zero
+            else:                            # box [0, v/2], generating value -v/3 (mild growth instead of decay)
+                theta = list(c["setup"]["theta"])
+                theta[idx] = S.sig(-v / 3.0, 4)
+                c["setup"] = dict(c["setup"], theta=theta)
+                lo[k], hi[k] = zero, S.sig(0.5 * v, 4)
+            start[k] = S.sig(lo[k] + (hi[k] - lo[k]) * draw(S.fl(0.2, 0.8, 3)), 4)
+            c["noise"] = 0.0
         c["lb"], c["ub"], c["start"] = lo, hi, start
         return c
     return case()
@@ -69,7 +85,7 @@ def _ref_cost_at(case, y, free):
     times = lossgen.times_of(case)
     traj = lossgen.reference_traj(m, lossgen.full_theta(case, list(free)), su["x0"], su["t0"], times, max_amp=50.0)
     yhat = traj[:, lossgen.obs_cols(case)]
-    if (yhat <= 1e-9).any():
+    if (yhat <= 1e-9).any() and case["loss"] not in ("Square", "Normal"):
         raise Inconclusive("prediction not positive")
     return lossgen.ref_cost(case, y, yhat)
 
@@ -83,7 +99,7 @@ def oracle(case, rec):
     lb, ub, start = np.array(case["lb"]), np.array(case["ub"]), np.array(case["start"])
     c_start_ref = _ref_cost_at(case, y, start)
     c_start_own = float(call(key + "/cost", case, obj.cost, start.copy()))
-    xhat = call(key + "/fit", case, obj.fit, start.copy(), list(lb), list(ub))
+    xhat = call(key + "/fit", case, obj.fit, start.copy(), list(case["lb"]), list(case["ub"]))
     xhat = np.asarray(xhat, float)
     if xhat.shape != start.shape:
         raise PropertyViolation(key + "/shape", "fit returned shape %s for %d free parameters" % (xhat.shape, len(start)), case)
